@@ -196,6 +196,32 @@ def fuse_facts(lost):
                 facts["allowInline"] = [e.attr for e in n.value.elts if isinstance(e, ast.Attribute)]
     if not facts["allowInline"]:
         lost.append(("Compile:allow_inline_functions", "allow list not found"))
+    # the generator `names()`: which candidates does it refuse?  (a yield guarded by `not keyword.iskeyword(<candidate>)` and
+    # by `<candidate> not in <set built from name_hints.values()>`)
+    facts["nameKeywords"], facts["skipReserved"] = [], False
+    gen = None
+    for n in ast.walk(comp):
+        if isinstance(n, ast.FunctionDef) and n.name == "names":
+            gen = n
+    if gen is None:
+        lost.append(("Compile:names", "generator names() not found"))
+    else:
+        reserved_sets = set()
+        for n in ast.walk(comp):
+            if (isinstance(n, ast.Assign) and len(n.targets) == 1 and isinstance(n.targets[0], ast.Name) and isinstance(n.value, ast.SetComp)
+                    and any(isinstance(m, ast.Attribute) and m.attr == "values" and getattr(m.value, "id", None) == "name_hints" for m in ast.walk(n.value))):
+                reserved_sets.add(n.targets[0].id)
+        for n in ast.walk(gen):
+            if isinstance(n, ast.If) and any(isinstance(m, (ast.Yield, ast.YieldFrom)) for m in ast.walk(ast.Module(body=n.body, type_ignores=[]))):
+                conds = n.test.values if isinstance(n.test, ast.BoolOp) and isinstance(n.test.op, ast.And) else [n.test]
+                for c in conds:
+                    if (isinstance(c, ast.UnaryOp) and isinstance(c.op, ast.Not) and isinstance(c.operand, ast.Call)
+                            and ast.unparse(c.operand.func) == "keyword.iskeyword"):
+                        import keyword as _kw
+                        facts["nameKeywords"] = sorted(k for k in _kw.kwlist if k.isalpha() and k.islower())
+                    if (isinstance(c, ast.Compare) and len(c.ops) == 1 and isinstance(c.ops[0], ast.NotIn)
+                            and isinstance(c.comparators[0], ast.Name) and c.comparators[0].id in reserved_sets):
+                        facts["skipReserved"] = True
     return facts
 
 
@@ -205,7 +231,7 @@ def _lean(f):
 namespace Einx.Extracted
 
 def compileUCfg : Einx.Compile.UCfg := {{ countFirst := {lean_bool(f['countFirst'])}, outputsRecursed := {lean_bool(f['outputsRecursed'])}, aliasForward := {lean_bool(f['aliasForward'])}, forceInlineWins := {lean_bool(f['forceInlineWins'])}, unaryParens := {lean_bool(f['unaryParens'])}, attrForceInline := {lean_bool(f.get('attrForceInline', False))} }}
-def compileFCfg : Einx.Compile.FCfg := {{ checkLater := {lean_bool(f['checkLater'])}, checkBlock := {lean_bool(f['checkBlock'])}, bindResult := {lean_bool(f['bindResult'])} }}
+def compileFCfg : Einx.Compile.FCfg := {{ checkLater := {lean_bool(f['checkLater'])}, checkBlock := {lean_bool(f['checkBlock'])}, bindResult := {lean_bool(f['bindResult'])}, nameKeywords := [{", ".join(lean_str(k) for k in f.get('nameKeywords', []))}], skipReserved := {lean_bool(f.get('skipReserved', False))} }}
 def compileAllowInline : List String := [{", ".join(lean_str(s) for s in f['allowInline'])}]
 
 end Einx.Extracted
